@@ -27,7 +27,9 @@ def generate(ctx):
              "syn": rng.choice(fac.SYNAPSES), "delay": rng.choice([None, None, 2]), "bias": rng.random() < 0.4,
              "capture": rng.random() < 0.5, "p": rng.choice([0.3, 0.6, 0.9]), "replay": 5,
              # component names other than the defaults, and keyword arguments routed to the neurons by name
-             "names": (i // 3) % 4 in (1, 2), "nkw": (i // 3) % 4 in (1, 3)}
+             "names": (i // 3) % 4 in (1, 2), "nkw": (i // 3) % 4 in (1, 3),
+             # keyword arguments for the connections, routed by name (which connections get some: by bit)
+             "ckw": rng.choice([0, 0, 1, 2, 3, 5, 6, 7])}
         if kind == "serial":
             d["conn"] = rng.choice(fac.CONNECTIONS)
             d["transform"] = rng.choice([None, "double", "offset_kw"])
@@ -190,17 +192,25 @@ def _step_layer(desc, layer, x):
     kind, cap = desc["kind"], desc["capture"]
     nkw = desc.get("nkw")
     _NKW = desc.get("nkw_dict") or globals()["_NKW"]     # C11 routes adapt=False to every neuron group this way
+    cbits = desc.get("ckw", 0)
     if kind == "serial":
         kw = {"offset": 1.5} if desc["transform"] == "offset_kw" else {}
         if nkw:
             kw["neuron_kwargs"] = dict(_NKW)
+        if cbits:
+            kw["connection_kwargs"] = {"route_marker": "serial"}
         r = layer(*x, capture_intermediate=cap, **kw)
         return ({"serial": r[0]}, {"serial": r[1]}) if cap else ({"serial": r}, None)
     if kind == "biclique":
         kw = {"neuron_kwargs": {n: dict(_NKW) for n in (layer.neurons_ if desc.get("nkw_all") else ["n0"])}} if nkw else {}
+        if cbits:
+            kw["connection_kwargs"] = {k: {"route_marker": k} for i, k in enumerate(sorted(x)) if cbits >> (i % 3) & 1}
         r = layer(x, capture_intermediate=cap, **kw)
         return (r[0], r[1]) if cap else (r, None)
     kw = {"feedback_neuron_kwargs": dict(_NKW), "feedfwd_neuron_kwargs": dict(_NKW)} if nkw else {}
+    for i, cn in enumerate(("feedfwd", "lateral", "feedback")):
+        if cbits >> i & 1:
+            kw[f"{cn}_connection_kwargs"] = {"route_marker": cn}
     r = layer(*x, capture_intermediate=cap, **kw)
     if cap:
         inter = r[1]
@@ -306,8 +316,14 @@ def run_case(ctx, desc):
         return ctx.violation(ctx.exc_signature(e, f"construct.{kind}"), f"{type(e).__name__}: {str(e)[:160]}", desc)
     g = torch.Generator().manual_seed(desc["seed"] + 1)
     xs = [_inputs(desc, pL, g) for _ in range(desc["T"])]
+    routed = []
+    if desc.get("ckw"):
+        # what each connection is actually called with (a forward pre-hook of the harness on the real connection)
+        for cname, c in pL.conns.items():
+            c.register_forward_pre_hook((lambda m, a, k, cname=cname: routed.append((cname, k.get("route_marker")))), with_kwargs=True)
     for t, x in enumerate(xs):
         rdesc = {**desc, "T": t + 1}
+        del routed[:]
         ctx.case(f"wiring/{tag}/{desc['neuron']}/{desc['syn']}/delay{desc['delay']}/cap{int(desc['capture'])}/B{desc['B']}")
         ctx.count("wiring_steps_checked")
         try:
@@ -325,6 +341,18 @@ def run_case(ctx, desc):
             outs, inter = _step_layer(desc, layer, x)
         except Exception as e:  # noqa: BLE001
             return ctx.violation(ctx.exc_signature(e, f"forward.{tag}"), f"{type(e).__name__}: {str(e)[:160]}", rdesc)
+        if desc.get("ckw"):
+            ctx.count("connection_kwargs_routing_checks")
+            cb = desc["ckw"]
+            if kind == "serial":
+                want = {"serial": "serial"}
+            elif kind == "biclique":
+                want = {k: (k if cb >> (i % 3) & 1 else None) for i, k in enumerate(sorted(x))}
+            else:
+                want = {cn: (cn if cb >> i & 1 else None) for i, cn in enumerate(("feedfwd", "lateral", "feedback"))}
+            if dict(routed) != want or len(routed) != len(want):
+                return ctx.violation(f"{tag.split('.tf-')[0]}.connection_kwargs_routing",
+                                     f"step {t}: connections were called with {sorted(routed, key=str)}, documented routing gives {want}", rdesc)
         eouts, einter = hand.step(x)
         if set(outs) != set(eouts):
             return ctx.violation(f"{tag}.output_keys", f"outputs {sorted(outs)} expected {sorted(eouts)}", rdesc)
